@@ -531,6 +531,25 @@ type RaceCase struct {
 	Schedule []int     `json:"schedule"`
 	// Batch: two writes parked at the same time are applied by ONE Update call of the metadata state machine (proposals committed together)
 	Batch bool `json:"batch,omitempty"`
+	// Replicas: every manager reads its OWN replica of the metadata state machine (stale reads, as kv.RaftStore does) and is answered by
+	// it; the schedule also decides when a lagging replica applies the next log entry or is caught up by a snapshot (gate.World.Replicas)
+	Replicas bool `json:"replicas,omitempty"`
+}
+
+func genRaceReplicas(t *rapid.T) RaceCase {
+	n := rapid.IntRange(2, 3).Draw(t, "managers")
+	c := RaceCase{Replicas: true}
+	for i := 0; i < n; i++ {
+		var p []RCall
+		k := rapid.IntRange(1, 4).Draw(t, "calls")
+		for j := 0; j < k; j++ {
+			p = append(p, RCall{Kind: rapid.SampledFrom([]string{"create", "create", "delete"}).Draw(t, "kind"), Name: rapid.SampledFrom([]string{"a", "a", "b"}).Draw(t, "name")})
+		}
+		c.Programs = append(c.Programs, p)
+	}
+	c.Schedule = rapid.SliceOfN(rapid.IntRange(0, 8), 0, 80).Draw(t, "schedule")
+	c.Batch = rapid.Bool().Draw(t, "batch")
+	return c
 }
 
 func genRace(t *rapid.T) RaceCase {
@@ -572,6 +591,9 @@ var lastRaceBranching []int // branching of the most recent execution (execution
 
 func runRace(c RaceCase, o *vt.Obs) *vt.Failure {
 	w := gate.NewWorld()
+	if c.Replicas {
+		w = gate.NewReplicatedWorld(len(c.Programs))
+	}
 	w.Batch = c.Batch
 	defer func() { lastRaceBranching = w.Branching }()
 	var mu sync.Mutex
@@ -664,20 +686,51 @@ func runRace(c RaceCase, o *vt.Obs) *vt.Failure {
 			return vt.Failf(prop+"/catalogue-holds-unacknowledged-table", 0, "store holds table %q which no successful create reported\ntrace %v", name, w.Trace)
 		}
 	}
+	if c.Replicas {
+		// once every node has caught up, listing and lookup on EVERY node reflect precisely the created-and-not-deleted tables
+		per, err := w.Settle("/tables/*")
+		if err != nil {
+			return vt.Failf(prop+"/harness-scheduler", 0, "%v", err)
+		}
+		for r, pairs := range per {
+			names := map[string]bool{}
+			for _, p := range pairs {
+				names[strings.TrimPrefix(p.Key, "/tables/")] = true
+			}
+			for name := range names {
+				if _, ok := stored[name]; !ok {
+					return vt.Failf(prop+"/node-lists-deleted-table", 0, "after every node applied the whole log, node %d still lists table %q, which the catalogue does not hold (deleted)\ntrace %v", r+1, name, w.Trace)
+				}
+			}
+			for name := range stored {
+				if !names[name] {
+					return vt.Failf(prop+"/node-misses-table", 0, "after every node applied the whole log, node %d does not list table %q\ntrace %v", r+1, name, w.Trace)
+				}
+			}
+		}
+	}
 	if bothPassedExists {
 		o.Label("two-creators-passed-the-existence-check")
 	}
 	if w.Batched > 0 {
 		o.Label("two-proposals-applied-in-one-update-call")
 	}
-	o.NonTrivial = bothPassedExists
+	if w.LagReads > 0 {
+		o.Label("decision-taken-on-a-stale-read-of-a-lagging-replica")
+	}
+	if w.SnapInstall > 0 {
+		o.Label("lagging-replica-caught-up-by-snapshot")
+	}
+	o.NonTrivial = bothPassedExists || (w.LagReads > 0 && w.SnapInstall > 0)
 	o.Describe = func() string { return fmt.Sprintf("%+v", c) }
 	return nil
 }
 
-func TestC14Race(t *testing.T)        { vt.Check(t, prop, genRace, runRace) }
-func TestC14RaceReplay(t *testing.T)  { vt.Replay(t, prop, runRace) }
-func TestC14RaceRegress(t *testing.T) { vt.Regress(t, prop, "testdata", runRace) }
+func TestC14Race(t *testing.T)               { vt.Check(t, prop, genRace, runRace) }
+func TestC14RaceReplicas(t *testing.T)       { vt.Check(t, prop, genRaceReplicas, runRace) }
+func TestC14RaceReplicasReplay(t *testing.T) { vt.Replay(t, prop, runRace) }
+func TestC14RaceReplay(t *testing.T)         { vt.Replay(t, prop, runRace) }
+func TestC14RaceRegress(t *testing.T)        { vt.Regress(t, prop, "testdata", runRace) }
 
 // TestC14RaceExhaustive enumerates ALL schedules (each exactly once, DFS over the scheduler's choice points) of two managers running
 // every pair of programs of up to 2 calls (thorough: 3 calls for the first manager) over {create a, create b, delete a}, without and
